@@ -343,6 +343,7 @@ def mon_c04(sc, res):
                                                                             "succeeded for a non-owner/absent path" if ok else "was refused for its owner"))
                     if ok and isinstance(path, bytes):
                         R.pop(path, None)
+                        fetch_only.discard(path)
                 elif method == b"change":
                     v = cget(params, b"value") if is_obj(params) else None
                     should = isinstance(path, bytes) and path in R and R[path][0] == c and R[path][1] == "state" and has_member(params, b"value")
@@ -355,6 +356,7 @@ def mon_c04(sc, res):
             dead.add(c)
             for p in [p for p, e in R.items() if e[0] == c]:
                 del R[p]
+                fetch_only.discard(p)
         if st[0] == "quiesce" and si in snaps:
             sn = snaps[si]
             img = {}
@@ -363,14 +365,17 @@ def mon_c04(sc, res):
                     fails.append("step %d: path %s names two elements" % (si, show(e["path"])))
                 img[e["path"]] = [addr2conn.get(e["owner"], -1), "state" if e["value"] != "~" else "method",
                                   canon_text(D.C.unhex(e["value"])) if e["value"] != "~" else None]
+            fo_img = set(e["path"] for e in sn["elems"] if int(e.get("flags", "0") or 0) & 1)
             if uncertain:
                 R = {p: list(v) for p, v in img.items()}
+                fetch_only = set(fo_img)
                 uncertain = False
                 unknown = set()
             elif img != R:
                 diff = {show(p): (img.get(p), R.get(p)) for p in set(img) | set(R) if img.get(p) != R.get(p)}
                 fails.append("step %d: element set differs from the reference map (daemon, reference): %s" % (si, repr(diff)[:300]))
                 R = {p: list(v) for p, v in img.items()}
+                fetch_only = set(fo_img)
     return fails[:6]
 
 
